@@ -27,6 +27,10 @@ def replay(job):
     if seed % 5 == 2 and n >= 2 and not partial_last and case["fault"]["kind"] != "removed":      # (a removed file would simply drop out of the glob)
         # one glob entry first that gives every file its first pattern, then the files' own keys with the rest: the entries of one file are not adjacent
         entries = [("a*.txt", [RAWS[0]])] + [(names[k], RAWS[1:case["pats"][k]]) for k in range(n) if case["pats"][k] > 1]
+    if seed % 7 == 3 and not partial_last:
+        # a pattern listed twice for one file: repeated as it stands, or {version} next to the version pattern written out (the same search after normalisation)
+        spelled = RAWS[0].replace("{version}", vp)
+        entries = [(key, list(raws) + [raws[0] if (seed // 7 + q) % 2 or raws[0] != RAWS[0] else spelled]) for q, (key, raws) in enumerate(entries)]
     cfg_pos = rng.randrange(0, n + 1)
     fault = case["fault"]
     with drive.scratch_dir("c06") as d:
